@@ -224,16 +224,19 @@ def verifyBlock (coin : Coin) (idx : List (Nat × Wk.Rec)) (b : RBlock) (h : Nat
 def maxHeightByBlk (idx : List (Nat × Wk.Rec)) (f : Nat) : Option Nat :=
   idx.foldl (fun a p => if p.2.file = f then (match a with | none => some p.1 | some m => some (max m p.1)) else a) none
 
-/-- `BlkFile::read_block` through the XorReader: seek(off-4), LE32 size, read_block -/
-def readAt (coin : Coin) (key : Option Bytes) (f : BlkFile) (off : Nat) : Res (Nat × RBlock) :=
-  if off < 4 then .panic "attempt to subtract with overflow" else
-  let bs := unxor key (off - 4) (bytesFrom f (off - 4))
+/-- what `read_block` does with the (de-obfuscated) bytes found at `offset - 4`: LE32 size, then the block -/
+def parseAt (coin : Coin) (bs : Bytes) : Res (Nat × RBlock) :=
   match readLE 4 bs with
   | none => .err "Unable to read block: failed to fill whole buffer"
   | some (size, bs) =>
     match Aux.readBlockCoin coin.auxpow bs with
     | none => .err "Unable to read block: failed to fill whole buffer"
     | some (b, _) => .ok (size, b)
+
+/-- `BlkFile::read_block` through the XorReader: seek(off-4), LE32 size, read_block -/
+def readAt (coin : Coin) (key : Option Bytes) (f : BlkFile) (off : Nat) : Res (Nat × RBlock) :=
+  if off < 4 then .panic "attempt to subtract with overflow" else
+  parseAt coin (unxor key (off - 4) (bytesFrom f (off - 4)))
 
 /-- the `for height in cur..=max_height` loop; `n` = heights left -/
 def driveLoop (coin : Coin) (o : Opts) (key : Option Bytes) (files : List (Nat × BlkFile))
